@@ -496,7 +496,7 @@ def run(ctx):
         except Exception as e:
             raise Violation('harness-exception:' + exc_bucket(e), case, repr(e))
 
-    hyp_run(ctx, res, cases(), body, ctx.pick(600, 3000), label='models')
+    hyp_run(ctx, res, cases(), body, ctx.pick(1500, 4000), label='models')
     if ctx.shard == 0:
         def cli_body(c):
             if 'bp' in c:
